@@ -86,7 +86,7 @@ def run(run, replay=None):
             run.count(('foreign', data), nontrivial=True)
             n += 1
     run.sample({'kind': 'foreign', 'bytes': len(data), 'head': data[:160].decode('latin-1')})
-    can = _dcommon.dom_canaries(traces, rng)
+    can = run.tolerant(lambda: _dcommon.dom_canaries(traces, rng))
     can = [c for c in can if True]
     v = run.judge('Trace_Dom', traces + can, cat.tables(), canary_ids=[c['id'] for c in can], describe=describe)
     run.notes['object_model_rejected_input'] = sum(1 for t in traces if t['ev'][0]['status'] != 'ok')
